@@ -54,7 +54,10 @@ impl VIOT {
         let old_len = self.header.length.get();
         let new_len = len + old_len;
         // Node offsets (and the handles handed out for them) are 16 bits wide.
-        assert!(new_len <= u16::MAX as u32, "VIOT nodes must stay within 16-bit offsets");
+        assert!(
+            new_len <= u16::MAX as u32,
+            "VIOT nodes must stay within 16-bit offsets"
+        );
         self.header.length.set(new_len);
 
         // Remove the bytes from the old length, add the new length
